@@ -177,7 +177,8 @@ func checkOrderedMapCoupling(r *Reporter, p *Prog) {
 				return false
 			}
 			se, ok := ast.Unparen(c.Fun).(*ast.SelectorExpr)
-			return ok && se.Sel.Name == name && fieldSel(info, se.X, "dictionary")
+			// (the dictionary's DeleteAndReturn is its Delete that also hands the removed value back)
+			return ok && (se.Sel.Name == name || (name == "Delete" && se.Sel.Name == "DeleteAndReturn")) && fieldSel(info, se.X, "dictionary")
 		}
 	}
 	// ---- Set
@@ -304,7 +305,21 @@ func checkOrderedMapCoupling(r *Reporter, p *Prog) {
 					return rel.Op == op && (strings.HasSuffix(rel.L, "."+field) && rel.R == "nil" || strings.HasSuffix(rel.R, "."+field) && rel.L == "nil")
 				})
 			}
-			if w, found := f.PathToExitAvoiding(dels[0], incDec("size", token.DEC)); found {
+			// (a removal that reports whether it removed anything - DeleteAndReturn - obliges only on the
+			// edge on which it did)
+			notRemoved := map[Edge]bool{}
+			f.forEachEdgeFact(func(e Edge, b *cfg.Block, ft fact) {
+				if ft.Pol {
+					return
+				}
+				if c, idx := f.AtomCall(ft.Atom, Point{b, len(b.Nodes) - 1}); c != nil && idx == 1 && dictCall("Delete")(c) {
+					notRemoved[e] = true
+				}
+			})
+			toExitAvoiding := func(from Point, avoid func(ast.Node) bool) ([]string, bool) {
+				return f.reach(Point{from.B, from.I + 1}, &searchOpts{AvoidNode: avoid, AvoidEdge: func(e Edge) bool { return notRemoved[e] }}, func(pt Point, atExit bool) bool { return atExit })
+			}
+			if w, found := toExitAvoiding(dels[0], incDec("size", token.DEC)); found {
 				r.Fail("omap/coupling", key+" size--", f.PosOf(dels[0]), "a path deletes the dictionary entry without decrementing size", w...)
 			} else {
 				r.Pass("omap/coupling", key+" size--", f.PosOf(dels[0]), "follows the dictionary deletion on every path")
@@ -333,7 +348,7 @@ func checkOrderedMapCoupling(r *Reporter, p *Prog) {
 			}
 			for _, pair := range [][2]int{{0, 1}, {2, 3}} {
 				a, b := rows[pair[0]].pred, rows[pair[1]].pred
-				if w, found := f.PathToExitAvoiding(dels[0], func(n ast.Node) bool { return a(n) || b(n) }); found {
+				if w, found := toExitAvoiding(dels[0], func(n ast.Node) bool { return a(n) || b(n) }); found {
 					r.Fail("omap/coupling", key+" unlink both directions: "+rows[pair[0]].name, f.PosOf(dels[0]), "a path removes the entry without fixing this direction of the chain", w...)
 				} else {
 					r.Pass("omap/coupling", key+" unlink both directions: "+rows[pair[0]].name, f.PosOf(dels[0]), "one of the two stores on every path")
@@ -520,7 +535,7 @@ func checkOmapRemovedKeepsLinks(r *Reporter, p *Prog) {
 		df := newFuncCFG(p, info, fd.Body, om+".OrderedMap.Delete")
 		var elem types.Object
 		ast.Inspect(fd.Body, func(n ast.Node) bool {
-			if as, ok := n.(*ast.AssignStmt); ok && len(as.Rhs) == 1 && len(as.Lhs) == 2 && strings.HasSuffix(exprKey(as.Rhs[0]), ".dictionary.Get(key)") {
+			if as, ok := n.(*ast.AssignStmt); ok && len(as.Rhs) == 1 && len(as.Lhs) == 2 && (strings.HasSuffix(exprKey(as.Rhs[0]), ".dictionary.Get(key)") || strings.HasSuffix(exprKey(as.Rhs[0]), ".dictionary.DeleteAndReturn(key)")) {
 				elem = objOfIdent(info, as.Lhs[0])
 			}
 			return true
@@ -738,6 +753,29 @@ func checkSetProtocol(r *Reporter, p *Prog) {
 				}
 			})
 			lic := append(append([]Edge{}, setFalse...), delTrue...)
+			// ... and the converse: once the underlying operation reported a membership change, every path
+			// to the end of the callback reports the element (a change that is applied but not reported
+			// leaves every subscriber and derived set with the wrong contents)
+			isResultAdd := func(n ast.Node) bool {
+				c, ok := n.(*ast.CallExpr)
+				if !ok || len(c.Args) != 1 {
+					return false
+				}
+				se, ok := ast.Unparen(c.Fun).(*ast.SelectorExpr)
+				if !ok || se.Sel.Name != "Add" {
+					return false
+				}
+				cpt, found := lf.PointOf(c)
+				return found && isElem(c.Args[0], cpt, lparams) && lit.Outside(info, rootObj(info, se.X))
+			}
+			for _, e := range lic {
+				e := e
+				if w, found := lf.reach(Point{e.From.Succs[e.Succ], 0}, &searchOpts{AvoidNode: isResultAdd, FromEdge: &e}, func(pt Point, atExit bool) bool { return atExit }); found {
+					r.Fail("set/exact-diff", key+" (every change reported)", p.posStr(condOf(e.From).Pos()), "after the underlying Set/Delete reported a membership change a path leaves the callback without putting the element into the result set: the change is applied but not reported", w...)
+				} else {
+					r.Pass("set/exact-diff", key+" (every change reported)", p.posStr(condOf(e.From).Pos()), "every membership change is reported")
+				}
+			}
 			for _, pt := range lf.Find(func(n ast.Node) bool {
 				c, ok := n.(*ast.CallExpr)
 				if !ok || len(c.Args) != 1 {
